@@ -167,15 +167,31 @@ func (h Hints) option() backend.ProverOption {
 
 // Solve runs the real solver on assignment with the given hint overrides.
 func (s *Sys) Solve(assignment frontend.Circuit, hints Hints) Result {
+	return s.SolveWith(assignment, hints.option())
+}
+
+// WrapAll returns a prover option that replaces EVERY registered hint function f (whatever hints the system under
+// test turns out to use) by wrap(id, f).
+func WrapAll(wrap func(id hint.ID, honest hint.Function) hint.Function) backend.ProverOption {
+	return func(c *backend.ProverConfig) error {
+		for id, f := range c.HintFunctions {
+			c.HintFunctions[id] = wrap(id, f)
+		}
+		return nil
+	}
+}
+
+// SolveWith runs the real solver on assignment under an arbitrary prover option.
+func (s *Sys) SolveWith(assignment frontend.Circuit, popt backend.ProverOption) Result {
 	w, err := frontend.NewWitness(assignment, s.Field)
 	if err != nil {
 		return Result{Err: fmt.Errorf("witness: %w", err), Site: "witness"}
 	}
 	if s.BN == nil {
-		err = s.CCS.IsSolved(w, hints.option())
+		err = s.CCS.IsSolved(w, popt)
 		return Result{Accepted: err == nil, Err: err, Site: siteOf(err)}
 	}
-	opt, err := backend.NewProverConfig(hints.option())
+	opt, err := backend.NewProverConfig(popt)
 	if err != nil {
 		return Result{Err: err}
 	}
